@@ -156,6 +156,18 @@ def make_conn_class():
         def max_request_id(self, v):
             self.__dict__['_mri_real'] = v
 
+        @property
+        def in_flight(self):
+            h = self.h
+            v = self.__dict__.get('_inf_real', 0)          # the value this thread has read ...
+            if h is not None and h.inflight_hook is not None:
+                h._on_inflight_read(self)                   # ... then another thread runs, if no lock keeps it out
+            return v
+
+        @in_flight.setter
+        def in_flight(self, v):
+            self.__dict__['_inf_real'] = v
+
         def push(self, data):
             self.h.pushed += 1
 
@@ -200,6 +212,8 @@ def make_conn_class():
         def reset_idle(self):
             h = self.h
             Connection.reset_idle(self)
+            if h is not None:
+                h.inflight_hook = None
             if h is not None and h.in_hb_round:
                 if h.hb_waited_ok:
                     h.hb_waited_ok = False
@@ -222,8 +236,9 @@ class HPool(HostConnection):
             if i in connection.request_ids:
                 h.emit('IdRelease %d' % i)
         if not stream_was_orphaned:
-            h.emit('OwnerReturn' if h.in_hb_notify else 'ReturnConn')
-            if h.in_hb_notify:
+            notify = h.in_hb_notify and not h.cb_stack      # called by ConnectionHeartbeat.run itself, not by a request's handler
+            h.emit('OwnerReturn' if notify else 'ReturnConn')
+            if notify:
                 h.event([12])
         r = HostConnection.return_connection(self, connection, stream_was_orphaned)
         h.checkpoint()
@@ -269,6 +284,9 @@ class Harness(object):
         self.in_query = False
         self.quiescent_points = []
         self.race_exercised = False
+        self.inflight_hook = None
+        self.traffic = False              # a frame was processed since the last heartbeat round
+        self.hb_race_ran = 0
         self.in_hb_round = False
         self.hb_waited_ok = False
         self.hb_seq = 0
@@ -280,6 +298,7 @@ class Harness(object):
         self.thread_threshold = thread_threshold
         HPool.h = self
         self.pool = HPool(self.host, HostDistance.LOCAL, self.session)
+        self.pool.h = self
         self.conn = self.pool._connection
         self.session._pools[self.host] = self.pool
         self.pool_live = True
@@ -427,6 +446,15 @@ class Harness(object):
                 finally:
                     self.send_hook = sh
 
+    def _on_inflight_read(self, conn):
+        ih, self.inflight_hook = self.inflight_hook, None
+        if conn.lock._is_owned():
+            return          # the reader holds the lock: a borrower's locked increment cannot run here
+        # another thread (a borrower) runs its locked region between this read and the following write
+        self.hb_race_ran += 1
+        for a in ih['nested']:
+            self.do(a)
+
     def _on_maxid_read(self):
         mh = self.maxid_hook
         if mh is not None and not mh['done'] and mh.get('armed'):
@@ -513,6 +541,13 @@ class Harness(object):
     next_nested_send = None
 
     def _process_msg(self, conn, header, body):
+        self.traffic = True
+        if header.stream < 0:
+            self.emit('RecvPush')
+            try:
+                return Connection.process_msg(conn, header, body)
+            finally:
+                self.checkpoint()
         f = self.feeding or {'d': 'DOk', 'nested': {}}
         outer = self.pm
         self.pm = {'i': header.stream, 'd': MODEL_DEC[f['d']], 'popped': False, 'proto': False, 'delivered': False,
@@ -769,6 +804,16 @@ class Harness(object):
                 self.owed_tokens.discard(tok)
             self.checkpoint()
 
+    def a_push_event(self, a):
+        """a server-pushed EVENT frame (stream -1, STATUS_CHANGE UP) through the real process_io_buffer / process_msg"""
+        if self.conn.is_closed:
+            return
+        st = lambda x: struct.pack('>H', len(x)) + x
+        body = st(b'STATUS_CHANGE') + st(b'UP') + bytes([4, 10, 0, 0, 9]) + struct.pack('>i', 9042)
+        self.conn._iobuf.write(frame(-1, 0x0C, body))
+        self.conn.process_io_buffer()
+        self.checkpoint()
+
     def a_respond_tok(self, a):
         """answer the request with token r (on whatever stream it was sent)"""
         ent = [w for w in self.wire if w[1] == a['r']]
@@ -903,4 +948,10 @@ class Harness(object):
     def a_hb_round(self, a):
         """the body of ConnectionHeartbeat.run for ONE round, thread never started, waits scripted"""
         from vf import conn_hb
-        conn_hb.run_round([self], [a.get('reply', 'supported')])
+        self.hb_race = a.get('race_borrow')
+        try:
+            conn_hb.run_round([self], [a.get('reply', 'supported')])
+        finally:
+            self.hb_race = None
+
+    hb_race = None
